@@ -31,6 +31,7 @@ EXPLANATION = (
     "poll; defer cap. Decides that caches are recomputed when their inputs change, not that the recursive SQL "
     "computes the intended fixed points. "
     "Also: every conditional flag trigger's WHEN clause is folded over the value domains of its OLD/NEW columns and must hold for every change of its OF columns; the dependency delete trigger flags the producers of the lost edge's source file; the definition of 'needed' (shared with C11) and the BUILT->notify pairing are claimed here as well."
+    ' R-C10-9 job handlers and mark_completed leave CHECKING/RUNNING on every exit, and a step put back to PENDING without having run loses its hash or is parked exactly while a dynamic input is unavailable; R-C10-10 both recomputation pipelines run all stages and clear the flag last; R-C10-11 a phase is the job loop then the finalisation, finished tasks report back.'
 )
 ASSUMPTIONS = [
     "SQLite's authorizer reports every column a prepared statement (and the triggers it fires) can read or write",
